@@ -23,6 +23,11 @@ def arrays(rnd, tier):
                 specs.append({"kind": "eager", "tensor": t})
         for sig in ([], [3], ["N"], [None], [0], [2, "N"], ["N", 2], [None, None], [1, 1, 1]):
             specs.append({"kind": "lazy", "dtype": d, "sig": sig})
+        # placeholders DERIVED by indexing: the leading extent is static exactly when NumPy can tell it from the declared shape
+        if d in ("int64", "float32", "utf8", "nint32", "bool"):
+            for sig, expr in (([5], "x[None, 1:3][0, ...]"), ([5], "x[1:4]"), ([5], "x[::2]"), ([5, 2], "x[None, 0:2, :][0, ...]"), ([4, 3], "x[:, None, 1:][:, 0, ...]"),
+                              ([6], "x[None, None, ::3][0, 0, ...]"), ([5, 2], "x[1:, ::-1]"), ([3, 4], "x[None, ..., 1:3][0, ...]")):
+                specs.append({"kind": "lazy", "dtype": d, "sig": sig, "expr": expr})
     return specs
 
 
@@ -98,8 +103,20 @@ def run(ctx):
                     if "raise" not in o or o["raise"] not in ("VE", "TE"):
                         ctx.finding({"func": name, "kind": "lazy-not-refused", "dtype": spec["dtype"]}, f"{name}(placeholder {sig}) -> {o}; must raise ValueError/TypeError", {"protocol": name, "placeholder": spec, "ndonnx": o})
                 lead = sig[0] if sig else None
+                if spec.get("expr"):
+                    import numpy as _np
+                    lead = int(eval(spec["expr"], {"x": _np.zeros(sig)}).shape[0])
                 for name in ("len", "iter"):
                     o = row["ndx"][name]
+                    if spec.get("expr"):
+                        # a derived placeholder may not know its leading extent (then it refuses); a value it gives must be right
+                        if "val" in o:
+                            got = o["val"] if name == "len" else len(o["val"])
+                            if got != lead:
+                                ctx.finding({"func": name, "kind": "lazy-derived-wrong", "dtype": spec["dtype"]}, f"{name}({spec['expr']}) on placeholder {sig}: {got}, the leading extent is {lead}", {"placeholder": spec, "ndonnx": o})
+                        elif o.get("raise") not in ("VE", "TE"):
+                            ctx.finding({"func": name, "kind": "lazy-not-refused", "dtype": spec["dtype"]}, f"{name}({spec['expr']}) on placeholder {sig} -> {str(o)[:120]}; must return {lead} or raise ValueError/TypeError", {"placeholder": spec, "ndonnx": o})
+                        continue
                     if isinstance(lead, int) and sig:
                         okv = ("val" in o) and ((o["val"] == lead) if name == "len" else len(o["val"]) == lead)
                         # iteration over placeholders yields lazy items (encoded as none) — only the count matters
